@@ -1017,6 +1017,36 @@ pub fn main(ctx: &Ctx) -> i32 {
                 return 2;
             }
         };
+        let d = &body["detail"];
+        if d["npo_cells"].as_bool() == Some(true) || d["sponge"].as_bool() == Some(true) {
+            // these arms are a pure function of (seed, tier, run index): re-run that run and look
+            // for the recorded finding
+            let rctx = Ctx {
+                prop: ctx.prop.clone(),
+                tier: if body["tier"].as_str() == Some("thorough") { Tier::Thorough } else { Tier::Quick },
+                seed: body["seed"].as_u64().unwrap_or(ctx.seed),
+                root: ctx.root.clone(),
+                replay: None,
+                start: ctx.start,
+                args: ctx.args.clone(),
+            };
+            let idx = d["idx"].as_u64().unwrap_or(0);
+            let mut out = RunOut::default();
+            if d["sponge"].as_bool() == Some(true) {
+                let only = d["call"].as_u64().zip(d["limb"].as_u64()).map(|(c, l)| (c as usize, l as usize));
+                crate::props::c04sponge::run(&rctx, idx, only, &mut out);
+            } else {
+                npo_cells_run(&rctx, idx, &mut out);
+            }
+            let key = body["key"].as_str().unwrap_or("");
+            let hit = out.violations.iter().any(|v| v.key == key);
+            println!("replay: run {idx} re-executed, {} violation(s), recorded key {}", out.violations.len(), if hit { "reproduced" } else { "not reproduced" });
+            if hit {
+                println!("VIOLATION property={} replay={}", ctx.prop, ctx.replay.as_ref().unwrap().display());
+                return 1;
+            }
+            return 0;
+        }
         return crate::with_uni!(body["detail"]["universe"].as_str().unwrap_or(""), U, replay::<U>(ctx, &body));
     }
     let runs: u64 = if prop == "C11" { ctx.tier.pick(3000, 60000) } else { ctx.tier.pick(64, 800) };
@@ -1029,6 +1059,10 @@ pub fn main(ctx: &Ctx) -> i32 {
         // row-level faults only: bus-level ones are skipped there)
         if (prop == "C04" && idx % 4 == 1) || (prop == "C11" && idx % 200 == 1) {
             npo_cells_run(ctx, idx, &mut out);
+        }
+        // sponge rows re-executed by a faulty witness generator (hook H3): every fourth run of C04
+        if prop == "C04" && idx % 4 == 3 {
+            crate::props::c04sponge::run(ctx, idx, None, &mut out);
         }
         let mut d = crate::core::prng::Digest::new();
         d.u64(out.evals);
